@@ -172,6 +172,7 @@ package document
 //@ ensures err == nil ==> forall c int :: 0 <= c && c < startCol ==> t.Rows[row].Cells[c] == old(t.Rows[row].Cells[c])
 //@ ensures err == nil ==> forall c int :: startCol < c && c < len(t.Rows[row].Cells) ==> t.Rows[row].Cells[c] == old(t.Rows[row].Cells[c + (endCol - startCol)])
 //@ ensures err == nil ==> t.Rows[row].Cells[startCol].Paragraphs == old(t.Rows[row].Cells[startCol].Paragraphs)
+//@ ensures err == nil ==> t.Rows[row].Cells[startCol].Properties == old(t.Rows[row].Cells[startCol].Properties) || fresh(t.Rows[row].Cells[startCol].Properties)
 //@ ensures err == nil ==> forall r int :: 0 <= r && r < len(t.Rows) && r != row ==> t.Rows[r].Cells == old(t.Rows[r].Cells)
 //@ ensures err == nil ==> forall r int, c int :: 0 <= r && r < len(t.Rows) && r != row && 0 <= c && c < len(t.Rows[r].Cells) ==> t.Rows[r].Cells[c] == old(t.Rows[r].Cells[c])
 
@@ -181,6 +182,7 @@ package document
 //@ requires t != nil && rowsOwn(t) && cellPropsOwn(t)
 //@ ensures err != nil ==> unchangedHeap()
 //@ ensures err == nil ==> 0 <= startRow && startRow < endRow && endRow < len(t.Rows) && 0 <= col
+//@ ensures err == nil <==> (0 <= startRow && startRow < endRow && endRow < old(len(t.Rows)) && 0 <= col && forall r int :: startRow <= r && r <= endRow ==> col < old(len(t.Rows[r].Cells)))
 //@ ensures err == nil ==> len(t.Rows) == old(len(t.Rows)) && t.Rows == old(t.Rows)
 //@ ensures err == nil ==> forall r int :: 0 <= r && r < len(t.Rows) ==> t.Rows[r].Cells == old(t.Rows[r].Cells)
 //@ ensures err == nil ==> cellPropsOwn(t)
